@@ -1,4 +1,6 @@
 import PC.Model.RevDeps
+import PC.Proofs.SupArms
+import PC.Spec.SupSpec
 /-! C12 — ordered shutdown: the reverse-dependency map (pure part). -/
 namespace PC.Props.C12
 open PC.RevDeps
@@ -101,6 +103,63 @@ theorem revdeps_order_indep (procs procs' : List (RProc α)) (h : ∀ q, q ∈ p
     p ∈ lookup (revDeps procs) d ↔ p ∈ lookup (revDeps procs') d := by
   rw [revdeps_spec, revdeps_spec]
   simp only [h]
+
+/-! ### Ordered shutdown in the supervisor model -/
+section Ordered
+open PC.Sup
+
+/-- the stopper of `i` spawns one waiter per running dependent of `i` ... -/
+theorem revDepsOf_spec (s : Sys) (n : Name) (j : IId) :
+    j ∈ revDepsOf s n ↔
+      ∃ m, m < s.cfgs.length ∧ s.running.getD m none = some j ∧ (s.running.getD n none).isSome = true ∧
+        (s.cfg m).deps.any (·.1 = n) = true := by
+  unfold revDepsOf
+  simp only [List.mem_filterMap, List.mem_range]
+  constructor
+  · rintro ⟨m, hm, h⟩
+    refine ⟨m, hm, ?_⟩
+    generalize s.running.getD m none = A at h ⊢
+    generalize s.running.getD n none = B at h ⊢
+    cases A with
+    | none => simp at h
+    | some j' =>
+      cases B with
+      | none => simp at h
+      | some k =>
+        simp only at h
+        by_cases hd : (s.cfg m).deps.any (·.1 = n) = true
+        · simp only [hd, ↓reduceIte, Option.some.injEq] at h
+          subst h
+          exact ⟨rfl, rfl, hd⟩
+        · simp [hd] at h
+  · rintro ⟨m, hm, h1, h2, h3⟩
+    refine ⟨m, hm, ?_⟩
+    generalize s.running.getD n none = B at h2 ⊢
+    rw [h1]
+    cases B with
+    | none => simp at h2
+    | some k => simp [h3]
+
+/-- ... and signals `i` only when every one of them has finished waiting, i.e. when each of those
+    dependents is done. -/
+theorem stopper_waits_for_dependents (s : Sys) (u : Tid) (i : IId) (h : (s.thr u).pc = .depWg i) :
+    enabledThr s u = true ↔ s.depWg.getD (s.nameOf i) 0 = 0 := by simp [enabledThr, h]
+
+theorem depwaiter_waits_for_done (s : Sys) (u : Tid) (j : IId) (h : (s.thr u).pc = .waitDoneThen j) :
+    enabledThr s u = true ↔ (s.inst j).done = true := by simp [enabledThr, h]
+
+/-- fan-in `x → d`, `y → d`, ordered shutdown: `d` is signalled after both `x` and `y` are done -/
+def fanin : List Cfg := [{}, { deps := [(0, .started)] }, { deps := [(0, .started)] }]
+def faninRun : List Choice :=
+  [.call 0 .runMain, .run 0, .run 1, .run 2, .run 3, .run 2, .run 3, .call 1 .shutdown, .run 4,
+   .run 5, .run 6, .run 6, .run 7, .run 7, .run 2, .run 3, .run 8, .run 9, .run 8, .run 9, .run 5]
+
+set_option maxRecDepth 8000 in
+example : ((runTrace (init .coarse true fanin) faninRun).2.filterMap fun o => match o with
+      | .stop n _ => some (Sum.inl n) | .done n => some (Sum.inr n) | _ => none)
+    = [.inl 1, .inl 2, .inr 1, .inr 2, .inl 0] := by decide
+
+end Ordered
 
 /-- fan-in: both dependents of `d` are recorded -/
 example : lookup (revDeps [⟨"x", ["d"]⟩, ⟨"y", ["d"]⟩, ⟨"d", []⟩]) "d" = ["x", "y"] := by decide
